@@ -146,6 +146,7 @@ type Interp struct {
 	gateExact bool   // the merge has exactly one live edge per side of that branch
 	gateSwap  bool   // the first merged value comes from the false side
 	curSt     *State // state of the instruction being interpreted (for event path guards)
+	totalForks int   // path splits since the last Reset (unroll mode)
 }
 
 func New() *Interp {
@@ -160,6 +161,7 @@ func (ip *Interp) Reset() {
 	ip.Ops = Ops{ip.In}
 	ip.gate = ""
 	ip.curSt = nil
+	ip.totalForks = 0
 	ip.Events = ip.Events[:0]
 	ip.Stores = ip.Stores[:0]
 	ip.Imprec = nil
@@ -986,8 +988,9 @@ func (ip *Interp) runPath(fn *ssa.Function, act *activation, st *State, prev, b 
 					next = b.Succs[0]
 				case cb != nil && cb.K == TriF:
 					next = b.Succs[1]
-				case cb != nil && (cb.Cmp != nil || cb.Key != "" || len(cb.Conj) > 0) && *forks < 1024:
+				case cb != nil && (cb.Cmp != nil || cb.Key != "" || len(cb.Conj) > 0) && *forks < 64 && ip.totalForks < 4096:
 					*forks++
+					ip.totalForks++
 					if ip.Hooks.Branch != nil {
 						ip.Hooks.Branch(ip, cb, t)
 					}
@@ -2426,8 +2429,18 @@ func (ip *Interp) builtin(act *activation, st *State, site ssa.CallInstruction, 
 				}
 			}
 			if add != nil && add.W == s0.Len.W {
-				ip.havocObj(st, s0.Base.Obj)
 				nl := ip.Ops.Add(s0.Len, add)
+				// with a constant length and listed elements the new elements are stored
+				// where they go; otherwise the contents become unknown
+				l0, okL := s0.Len.IsConst()
+				o0, okO := s0.Off.IsConst()
+				if okL && okO && len(evArgs) >= 2 && len(evArgs)-1 > 0 && evArgs[0] == args[0] && !(len(evArgs) == 2 && evArgs[1] == args[1]) {
+					for i, e := range evArgs[1:] {
+						ip.Store(st, &Ptr{Obj: s0.Base.Obj, Path: appendSel(s0.Base.Path, Sel{Field: -1, Index: int(o0+l0) + i}), T: s0.ElemT}, s0.ElemT, e)
+					}
+				} else {
+					ip.havocObj(st, s0.Base.Obj)
+				}
 				res := &Slice{Nil: TriF, Base: s0.Base, Off: s0.Off, Len: nl, Cap: ip.Ops.Join(s0.Cap, nl), ElemT: s0.ElemT}
 				ev.Result = res
 				return res, true
